@@ -7,6 +7,7 @@ package main
 import (
 	"bufio"
 	"encoding/json"
+	"errors"
 	"fmt"
 	"os"
 	"os/exec"
@@ -205,7 +206,9 @@ func runWorkerGMP(bin string, spec workerSpec, scratch string, timeout time.Dura
 	}
 	os.Remove(spec.Out)
 	cmd := exec.Command(bin, "-test.run", "^TestWorker$", "-test.timeout", "0")
-	cmd.Env = append(os.Environ(), "KMIPVERIF_SPEC="+specPath, fmt.Sprintf("GOMAXPROCS=%d", gmp), "GOMEMLIMIT=3GiB")
+	crumb := filepath.Join(scratch, fmt.Sprintf("crumb-%s-%s-%d.json", spec.Property, spec.Mode, spec.Worker))
+	os.Remove(crumb)
+	cmd.Env = append(os.Environ(), "KMIPVERIF_SPEC="+specPath, fmt.Sprintf("GOMAXPROCS=%d", gmp), "GOMEMLIMIT=3GiB", "KMIPVERIF_CRUMB="+crumb)
 	logPath := filepath.Join(scratch, fmt.Sprintf("log-%s-%s-%d.txt", spec.Property, spec.Mode, spec.Worker))
 	lf, _ := os.Create(logPath)
 	cmd.Stdout, cmd.Stderr = lf, lf
@@ -219,6 +222,9 @@ func runWorkerGMP(bin string, spec workerSpec, scratch string, timeout time.Dura
 		lf.Close()
 		if err != nil {
 			lg, _ := os.ReadFile(logPath)
+			if class, frame := fatalClass(string(lg)); class != "" {
+				return nil, &workerDeath{worker: spec.Worker, class: class, frame: frame, crumb: crumb, err: err}
+			}
 			return nil, fmt.Errorf("worker %d failed: %v\n%s", spec.Worker, err, tail(string(lg), 60))
 		}
 	case <-time.After(timeout):
@@ -235,6 +241,55 @@ func runWorkerGMP(bin string, spec workerSpec, scratch string, timeout time.Dura
 		return nil, err
 	}
 	return &res, nil
+}
+
+// workerDeath: the worker process was killed by a Go fatal error (not a panic, which the simulator recovers and
+// reports) raised while library code was running.
+type workerDeath struct {
+	worker int
+	class  string // out-of-memory | stack-overflow
+	frame  string // innermost kmip-go frame of the dying goroutine
+	crumb  string // file holding the input of the run that was executing
+	err    error
+}
+
+func (d *workerDeath) Error() string {
+	return fmt.Sprintf("worker %d killed by a fatal error (%s) in %s: %v", d.worker, d.class, d.frame, d.err)
+}
+
+// fatalClass recognises the two fatal errors that library code can cause and that no recover() catches, and returns
+// the innermost github.com/ovh/kmip-go frame of the goroutine that died. Anything else is not classified.
+func fatalClass(log string) (class, frame string) {
+	switch {
+	case strings.Contains(log, "fatal error: runtime: out of memory") || strings.Contains(log, "fatal error: out of memory"):
+		class = "out-of-memory"
+	case strings.Contains(log, "fatal error: stack overflow") || strings.Contains(log, "goroutine stack exceeds"):
+		class = "stack-overflow"
+	default:
+		return "", ""
+	}
+	// the dying goroutine is the first one listed as running
+	i := strings.Index(log, "[running")
+	if i < 0 {
+		return "", ""
+	}
+	sect := log[i:]
+	if j := strings.Index(sect, "\n\ngoroutine "); j > 0 {
+		sect = sect[:j]
+	}
+	for _, ln := range strings.Split(sect, "\n") {
+		if strings.HasPrefix(ln, "github.com/ovh/kmip-go") {
+			f := ln
+			if k := strings.IndexByte(f, '('); k > 0 && !strings.HasPrefix(f[k:], "(*") {
+				f = f[:k]
+			}
+			if k := strings.LastIndex(f, "("); k > 0 && strings.HasSuffix(strings.TrimSpace(f), ")") && !strings.Contains(f[k:], "*") {
+				f = f[:k]
+			}
+			return class, strings.TrimPrefix(strings.TrimSpace(f), "github.com/ovh/kmip-go/")
+		}
+	}
+	return "", "" // no library frame on the dying goroutine: not the library's doing as far as we can tell
 }
 
 func tail(s string, n int) string {
@@ -503,6 +558,12 @@ func runProperty(prop, tier string, seed uint64, runs int, mutate, scratch strin
 	}
 	wg.Wait()
 	for _, e := range errs {
+		var d *workerDeath
+		if errors.As(e, &d) {
+			return reportDeath(prop, tier, seed, bin, scratch, replayDir, d, start, writeEvidence)
+		}
+	}
+	for _, e := range errs {
 		if e != nil {
 			trouble("%v", e)
 		}
@@ -731,6 +792,47 @@ func runProperty(prop, tier string, seed uint64, runs int, mutate, scratch strin
 	return exit
 }
 
+// reportDeath turns "library code killed the worker process with a fatal error" into a violation with a replay file:
+// the input of the run that was executing is taken from the worker's crumb file and re-executed in a fresh
+// process, which has to die the same way.
+func reportDeath(prop, tier string, seed uint64, bin, scratch, replayDir string, d *workerDeath, start time.Time, writeEvidence bool) int {
+	raw, err := os.ReadFile(d.crumb)
+	if err != nil {
+		trouble("%v (and no record of the run that was executing: %v)", d, err)
+	}
+	var rf map[string]json.RawMessage // raw: the seeds are 64-bit integers
+	if err := json.Unmarshal(raw, &rf); err != nil {
+		trouble("%v (crumb unreadable: %v)", d, err)
+	}
+	rule, sig := prop+".process-killed", d.class+" @ "+d.frame
+	detail := fmt.Sprintf("library code killed the process with a Go fatal error (%s), which no recover() can catch; innermost library frame: %s", d.class, d.frame)
+	rf["expect"], _ = json.Marshal(map[string]any{"rule": rule, "sig": sig, "event_hash": ""})
+	rf["verif_seed"], _ = json.Marshal(seed)
+	rf["detail"], _ = json.Marshal(detail)
+	_ = os.MkdirAll(replayDir, 0o755)
+	path := filepath.Join(replayDir, fmt.Sprintf("%s-%s.process-killed-%s.json", prop, prop, d.class))
+	b, _ := json.MarshalIndent(rf, "", " ")
+	if err := os.WriteFile(path, b, 0o644); err != nil {
+		trouble("%v", err)
+	}
+	_, err = runWorker(bin, workerSpec{Property: prop, Tier: tier, Seed: seed, Mode: "replay", ReplayFile: path, Worker: 950}, scratch, 5*time.Minute)
+	var d2 *workerDeath
+	if !errors.As(err, &d2) || d2.class != d.class {
+		trouble("%v; the run recorded as executing does not kill a fresh process (%v)", d, err)
+	}
+	fmt.Printf("VIOLATION property=%s replay=%s\n  rule=%s sig=%s\n  %s\n", prop, path, rule, sig, detail)
+	wall := time.Since(start).Seconds()
+	if writeEvidence {
+		ev := evidence{PropertyID: prop, Tier: tier, Seed: seed, Level: "exploration", WallS: wall, Violations: 1,
+			Coverage: map[string]any{"note": "the run was cut short: library code killed a worker process (" + sig + "); counts of the other workers are not merged"}}
+		_ = os.MkdirAll(filepath.Join(verifDir, "evidence"), 0o755)
+		eb, _ := json.MarshalIndent(ev, "", " ")
+		_ = os.WriteFile(filepath.Join(verifDir, "evidence", prop+".json"), eb, 0o644)
+	}
+	fmt.Printf("check: %s %s: cut short, 1 violations, %.1fs\n", prop, tier, wall)
+	return 1
+}
+
 func cmdReplay(args []string) int {
 	if len(args) < 1 {
 		trouble("usage: check replay <file>")
@@ -760,6 +862,18 @@ func cmdReplay(args []string) int {
 	}
 	abs, _ := filepath.Abs(args[0])
 	rr, err := runWorker(bin, workerSpec{Property: rf.Property, Mode: "replay", ReplayFile: abs}, scratch, 5*time.Minute)
+	if strings.HasSuffix(rf.Expect.Rule, ".process-killed") {
+		var d *workerDeath
+		if errors.As(err, &d) && strings.HasPrefix(rf.Expect.Sig, d.class) {
+			fmt.Printf("VIOLATION property=%s replay=%s\n  rule=%s sig=%s (the replay killed its process again: %s @ %s)\n", rf.Property, abs, rf.Expect.Rule, rf.Expect.Sig, d.class, d.frame)
+			return 1
+		}
+		if err != nil {
+			trouble("%v", err)
+		}
+		fmt.Printf("replay of %s: expected %s|%s not reproduced on the current tree (the process survived)\n", abs, rf.Expect.Rule, rf.Expect.Sig)
+		return 0
+	}
 	if err != nil {
 		trouble("%v", err)
 	}
